@@ -152,6 +152,19 @@ func safetyFamily(tier string, amevs []int64) []*Job {
 			jobs = append(jobs, job(fp, per))
 		}
 	}
+	// pre-commit data bound to (height, transactions) only (see types.go preDataHash): with the same pool proposed
+	// again after a view change, pre-commits of the abandoned view fit the new pre-block
+	for _, a := range amevs {
+		if a >= 0 {
+			p0 := primaryAt(start+1, 0, 4)
+			tb := scen(fmt.Sprintf("B1t-silent-primary%d-txbound-precommits-N4-%s", p0, amevName(a)), 4, withAMEV(a), withKind(p0, kSilent), withK(2))
+			tb.PreDataTxOnly = true
+			jobs = append(jobs, job(tb, per))
+			tb2 := scen(fmt.Sprintf("B7t-byz%d-txbound-precommits-N4-%s", p0, amevName(a)), 4, withAMEV(a), withKind(p0, kByz), withK(2))
+			tb2.PreDataTxOnly = true
+			jobs = append(jobs, job(tb2, per))
+		}
+	}
 	// failing ProcessBlock under anti-MEV (the library then waits for more Commits): first call per node fails
 	for _, a := range amevs {
 		if a >= 0 {
